@@ -964,12 +964,13 @@ func (s *session) startReadAndHandle() {
 		}
 		s.graceCtxWaitGroup.Add(1)
 		vp("read.spawn", s, int64(ctx.input.Seq()), int64(ctx.input.Mtype()))
-		if !Go(func() {
+		// (if the goroutine pool is exhausted the message is handled here:
+		// dropping it would leave a call unanswered, or a reply that is
+		// already bound to its call undelivered and the call locked)
+		TryGo(func() {
 			defer s.peer.putContext(ctx, true)
 			ctx.handle()
-		}) {
-			s.peer.putContext(ctx, true)
-		}
+		})
 	}
 }
 
